@@ -1,5 +1,5 @@
 (* C11 — only frames matching the current filter are queued; queued packets never change. *)
-From Ubx Require Import Base Checksum ParserUbx ParserUbxSpec ParserUbxP.
+From Ubx Require Import Base Checksum ParserUbx ParserUbxSpec ParserUbxP ParserUbxQ.
 
 (* At the last byte of a checksum-valid frame: counted always, queued iff in the filter in force *)
 Theorem C11_crc2_valid : forall p d,
@@ -50,9 +50,15 @@ Theorem C11_queue_kept : forall p l c,
 Proof. exact queue_kept. Qed.
 Print Assumptions C11_queue_kept.
 
-(* every schedule: the queue at the end is a suffix of (queue at start ++ something appended),
-   i.e. entries are only ever removed from the front or added at the back, never rewritten *)
-Theorem C11_queue_only_shifts : forall ops p,
-  exists n app, queue (fst (run p ops)) = skipn n (queue p ++ app).
-Proof. exact queue_only_shifts. Qed.
-Print Assumptions C11_queue_only_shifts.
+(* every schedule without packet()/empty_queue(): what was queued at the start is still there,
+   unchanged and in order, in front of whatever was appended since *)
+Theorem C11_queue_prefix_kept : forall ops p,
+  forallb (fun o => negb (is_pop_op o)) ops = true ->
+  exists app, queue (fst (run p ops)) = queue p ++ app.
+Proof. exact queue_prefix_kept. Qed.
+Print Assumptions C11_queue_prefix_kept.
+
+Theorem C11_packet_then_rest : forall p x q,
+  queue p = x :: q -> run_op p OPacket = (mkParser (st p) (rg p) q (rx p) (filt p), OPkt (Some x)).
+Proof. exact packet_then_rest. Qed.
+Print Assumptions C11_packet_then_rest.
